@@ -2,7 +2,8 @@
    escaper — the escaper's output neither closes the quote early nor opens an interpolation. *)
 From Coq Require Import List Ascii String Bool Arith Lia.
 Import ListNotations.
-Require Import Gen NixLex.
+From Dyn Require Import Gen.
+From Lex Require Import NixLex.
 
 Notation loop := _split_attrpath_loop.
 Definition DQc : ascii := c 34. Definition BSc : ascii := c 92. Definition DOLc : ascii := c 36. Definition LBc : ascii := c 123.
@@ -191,7 +192,7 @@ Qed.
 Print Assumptions C12_split.
 
 (* the same statement about the two GENERATED functions together (escaper of primitive.py, splitter of binding.py) *)
-Require Import Refine.
+From Dyn Require Import Refine.
 Definition quoteG (s : str) : str := c 34 :: _escape_nix_string true s ++ [c 34].
 Corollary C12_split_code : forall ss, ss <> [] -> _split_attrpath (joind (map quoteG ss)) = Ok (map quoteG ss).
 Proof.
